@@ -12,10 +12,12 @@ Proved here:
                                     generated for the OPTIMISED program yields the value / the error the semantics gives
                                     the ORIGINAL program.
 
+ * `deep_sound`, `deep_sound_top`, `deep_sound_program`   GENERIC: any locally sound rewrite applied everywhere, INSIDE
+                                    LAMBDA BODIES TOO, preserves the semantics up to the value correspondence
+                                    `V.map (deep rw)`; instance `simplify_preserves`, `simplify_then_compile_program`.
+
 PARTIAL / NOT DONE (of the passes asked for):
- * `dbe` does not descend into lambda bodies (then closure values would differ by the optimisation of their bodies and
-   the comparison needs the value correspondence `V.map dbe` in place of equality — the same machinery as `toV` in C01;
-   not done).  Full statement: `evalTop fuel (dbeDeep e) σ ≈ evalTop fuel e σ` up to `V.map dbeDeep`.
+ * `dbe` (first version) does not descend into lambda bodies; `simplify` (second part of this file) does.
  * the converse termination direction (`dbe e` finishes ⇒ `e` finishes) is not proved; `dbe_outcomes_agree` covers the
    agreement when both finish.
  * constant folding of primitive applications, the unit-local inliner and closure lifting on `Core` are NOT done: each
@@ -23,6 +25,8 @@ PARTIAL / NOT DONE (of the passes asked for):
    over all closure values of the state (the semantic counterpart of `C09C.T.Inv`), (ii) the value correspondence above.
 -/
 import SteelVerif.C02.CorePassDbe
+import SteelVerif.C02.CorePassLocal
+import SteelVerif.C02.CoreStable2
 namespace SteelVerif.C02C
 open SteelVerif.C01C
 
@@ -80,5 +84,196 @@ example : (match evalTop 10 dbeEx ⟨[], primGlobals⟩ with | .ok (v, _) => V.t
 example : (match evalTop 10 (dbe dbeEx) ⟨[], primGlobals⟩ with | .ok (v, _) => V.toInt? v | _ => none) = some 3 := by
   decide
 example : compileTop (dbe dbeEx) = [.LOADINT1, .LOADINT2, .CALLGLOBAL 0, .FUNC 2, .POPPURE] := by decide
+
+/-! ## Passes that descend into lambda bodies: the value correspondence `V.map pass`
+
+`CoreDeep.lean` / `CoreDeep2.lean`: for ANY local rewrite `rw` that is locally sound (`LocalSound rw`: `rw e'` yields in
+every frame, closure and state what `e'` yields, with the same fuel), the pass `deep rw` — `rw` applied bottom-up at
+every node, inside lambda bodies to any nesting — preserves the reference semantics up to `V.map (deep rw)`: closure
+values of the optimised run are those of the original run with their bodies optimised; likewise the closures in the
+frame slots, in the store and in the global table; error kinds are equal.  Two instances: dead-branch elimination
+(`rwDbe`) and dead constant statements (`rwSeq`), together `simplify`. -/
+
+/-- **Generic theorem for local-rewrite passes** (full strength: values, frame, store, globals, error kinds; same
+fuel; any frame, any running closure, any state). -/
+theorem deep_sound (rw : Core → Core) (hls : LocalSound rw) (fuel : Nat) (self : Self) (tail : Bool) (e : Core)
+    (env caps : List Val) (σ : St Core) (r : Res (Val × List Val × St Core))
+    (h : evalC fuel self tail e env caps σ = r) (hr : r ≠ .timeout) :
+    evalC fuel (mSelf rw self) tail (deep rw e) (mL rw env) (mL rw caps) (mS rw σ) = mR3 rw r :=
+  (deep_all rw hls fuel).1 self tail e env caps σ r h hr
+
+/-- Top-level form: the optimised program, run from the correspondingly optimised state (the closures already in the
+store / globals have their bodies optimised too — e.g. the definitions of earlier forms of the same unit), yields the
+corresponding outcome. -/
+theorem deep_sound_top (rw : Core → Core) (hls : LocalSound rw) (fuel : Nat) (e : Core) (σ : St Core)
+    (r : Res (Val × St Core)) (h : evalTop fuel e σ = r) (hr : r ≠ .timeout) :
+    evalTop fuel (deep rw e) (mS rw σ) = r.map (fun p => (mV rw p.1, mS rw p.2)) := by
+  unfold evalTop at h ⊢
+  cases he : evalC fuel none false e [] [] σ with
+  | timeout => rw [he] at h; simp [Res.map] at h; exact absurd h.symm hr
+  | err x =>
+    have := deep_sound rw hls fuel none false e [] [] σ _ he (by simp)
+    simp only [mSelf, List.map_nil] at this
+    rw [this]; rw [he] at h; subst h; simp [mR3, Res.map]
+  | ok x =>
+    have := deep_sound rw hls fuel none false e [] [] σ _ he (by simp)
+    simp only [mSelf, List.map_nil] at this
+    rw [this]; rw [he] at h; subst h; simp [mR3, Res.map]
+
+/-- **`simplify` (dead branches + dead constant statements, everywhere, inside lambda bodies too) preserves the
+semantics** up to `V.map simplify`. -/
+theorem simplify_preserves (fuel : Nat) (e : Core) (σ : St Core) (r : Res (Val × St Core))
+    (h : evalTop fuel e σ = r) (hr : r ≠ .timeout) :
+    evalTop fuel (simplify e) (mS rwSimpl σ) = r.map (fun p => (mV rwSimpl p.1, mS rwSimpl p.2)) :=
+  deep_sound_top rwSimpl rwSimpl_sound fuel e σ r h hr
+
+/-- Whole programs (a unit = a list of top-level forms): every form optimised, same values up to the correspondence. -/
+theorem deep_sound_program (rw : Core → Core) (hls : LocalSound rw) (fuel : Nat) : ∀ (es : List Core) (σ : St Core)
+    (vs : List Val) (σ' : St Core), evalProgram fuel es σ = .ok (vs, σ') →
+    evalProgram fuel (es.map (deep rw)) (mS rw σ) = .ok (mL rw vs, mS rw σ') := by
+  intro es
+  induction es with
+  | nil => intro σ vs σ' h; simp [evalProgram] at h ⊢; obtain ⟨rfl, rfl⟩ := h; simp
+  | cons e rest ih =>
+    intro σ vs σ' h
+    simp only [evalProgram] at h
+    cases h1 : evalTop fuel e σ with
+    | err k => simp [h1] at h
+    | timeout => simp [h1] at h
+    | ok p =>
+      obtain ⟨v, σ1⟩ := p
+      simp only [h1] at h
+      cases h2 : evalProgram fuel rest σ1 with
+      | err k => simp [h2, Res.map] at h
+      | timeout => simp [h2, Res.map] at h
+      | ok q =>
+        obtain ⟨vs', σ2⟩ := q
+        simp only [h2, Res.map, Res.ok.injEq, Prod.mk.injEq] at h
+        obtain ⟨rfl, rfl⟩ := h
+        have a := deep_sound_top rw hls fuel e σ _ h1 (by simp)
+        have b := ih σ1 vs' σ2 h2
+        simp only [List.map_cons, evalProgram, a, Res.map, b]
+
+/-- **Compiled code of the optimised program = semantics of the original**, for whole units: if the original unit
+yields the values `vs`, the VM running the code generated for the optimised unit (from the state with the primitives
+only, which the pass leaves as it is) yields the corresponding values — closures with optimised, compiled bodies. -/
+theorem simplify_then_compile_program (fuel : Nat) (es : List Core) (vs : List Val) (σ' : St Core)
+    (h : evalProgram fuel es ⟨[], primGlobals⟩ = .ok (vs, σ')) :
+    ∃ n, runProgram n ((es.map simplify).map compileTop) (toSt ⟨[], primGlobals⟩) =
+      .ok ((mL rwSimpl vs).map toV, toSt (mS rwSimpl σ')) := by
+  have a := deep_sound_program rwSimpl rwSimpl_sound fuel es _ vs σ' h
+  have hp : mS rwSimpl (⟨[], primGlobals⟩ : St Core) = ⟨[], primGlobals⟩ := by
+    simp [mS, mapSt, primGlobals]
+  rw [hp] at a
+  exact compile_correct_program fuel _ _ _ _ a
+
+/-! ### Non-vacuity: the pass fires inside a lambda body, and the closure VALUE differs by the optimisation -/
+
+/-- `(define (f x) (begin 7 (if #t (+ x 1) (car x))))`, `(f 41)` -/
+def simplEx : List Core :=
+  [.define 20 (.lam 1 false [] (.seq (.const (.int 7))
+      (.ite (.const (.bool true)) (.callG 0 [.loc 0 true, .const (.int 1)]) (.app (.const (.int 5)) [.loc 0 true])))),
+   .callG 20 [.const (.int 41)]]
+
+example : simplEx.map simplify =
+    [.define 20 (.lam 1 false [] (.callG 0 [.loc 0 true, .const (.int 1)])), .callG 20 [.const (.int 41)]] := rfl
+example : (match evalProgram 10 simplEx ⟨[], primGlobals⟩ with | .ok (vs, _) => vs.map V.toInt? | _ => []) =
+    [none, some 42] := by decide
+example : (match evalProgram 10 (simplEx.map simplify) ⟨[], primGlobals⟩ with | .ok (vs, _) => vs.map V.toInt? | _ => [])
+    = [none, some 42] := by decide
+
+/-! ### The inliner across units: the guard is needed (K02a on the closure core)
+
+NOT proved: preservation for the unit-local inliner, constant folding of primitive applications, closure lifting (see
+the header).  What is DECIDED here is that the inliner's legality condition "the inlined global is assigned by no later
+unit" is needed on the closure core as well: unit 1 `(define (f) 1) (define (g) (f))`, inlined to
+`(define (f) 1) (define (g) 1)`; unit 2 `(set! f (lambda () 2)) (g)`.  The original program yields 2, the program
+with the inlined unit yields 1 — the known finding K02a (same class predicate:
+global_defined_and_used_in_one_unit_assigned_later). -/
+def unit1 : List Core := [.define 20 (.lam 0 false [] (.const (.int 1))), .define 21 (.lam 0 false [] (.callG 20 []))]
+def unit1Inlined : List Core :=
+  [.define 20 (.lam 0 false [] (.const (.int 1))), .define 21 (.lam 0 false [] (.const (.int 1)))]
+def unit2 : List Core := [.setGlob 20 (.lam 0 false [] (.const (.int 2))), .callG 21 []]
+
+def lastInt (r : Res (List Val × St Core)) : Option Int :=
+  match r with
+  | .ok (vs, _) => (vs.getLast?).bind V.toInt?
+  | _ => none
+
+/-- within the unit the inlined program agrees with the original … -/
+example : lastInt (evalProgram 10 (unit1 ++ [.callG 21 []]) ⟨[], primGlobals⟩) =
+    lastInt (evalProgram 10 (unit1Inlined ++ [.callG 21 []]) ⟨[], primGlobals⟩) := by decide
+/-- … a later unit that assigns the inlined global tells them apart (witness outside the guard). -/
+theorem inline_needs_no_later_assignment_core :
+    lastInt (evalProgram 10 (unit1 ++ unit2) ⟨[], primGlobals⟩) = some 2 ∧
+    lastInt (evalProgram 10 (unit1Inlined ++ unit2) ⟨[], primGlobals⟩) = some 1 := by decide
+
+/-! ## The semantic invariant for constant folding and inlining: protected global slots are stable
+
+`noAssign ps e` (decidable, syntactic): no `define` / `set!` of a slot in `ps` occurs in `e`, lambda bodies included.
+`OkSt ps σ`: every closure reachable from the store and the global table (through captured lists and lists, to any
+depth) has such a body.  Then evaluation — through any calls of any closures of the state — never changes what a
+protected slot holds, and stays in that class of states (`CoreStable2.lean`, `stable_all`).  This is the guard under
+which a primitive application on constants may be folded and a global callee may be inlined: "the slot is assigned by no
+code reachable from the state"; a LATER unit that assigns the slot is outside the guard (`noAssign` fails for it) — the
+finding K02a, witnessed by `inline_needs_no_later_assignment_core`.  The fold / inline passes themselves are not proved
+on the closure core yet: they need the congruence of `deep_all` with this invariant threaded through. -/
+
+/-- **Protected slots are stable.** -/
+theorem protected_slots_stable (ps : List Nat) (fuel : Nat) (e : Core) (σ σ' : St Core) (v : Val)
+    (h : evalTop fuel e σ = .ok (v, σ')) (hn : noAssign ps e = true) (hst : OkSt ps σ) :
+    (∀ g, g ∈ ps → lookupG g σ'.globals = lookupG g σ.globals) ∧ OkSt ps σ' ∧ OkV ps v := by
+  unfold evalTop at h
+  cases he : evalC fuel none false e [] [] σ with
+  | timeout => simp [he, Res.map] at h
+  | err k => simp [he, Res.map] at h
+  | ok x =>
+    obtain ⟨v', env', σ''⟩ := x
+    simp only [he, Res.map, Res.ok.injEq, Prod.mk.injEq] at h
+    obtain ⟨rfl, rfl⟩ := h
+    obtain ⟨a1, _, a3, a4⟩ := (stable_all ps fuel).1 none false e [] [] σ v' env' σ'' he hn trivial OkL.nil OkL.nil hst
+    exact ⟨a4, a3, a1⟩
+
+/-- … for whole units: as long as no form of the unit assigns a protected slot, the slots hold after the unit what they
+held before — whatever closures the unit created, stored, passed around and called. -/
+theorem protected_slots_stable_program (ps : List Nat) (fuel : Nat) : ∀ (es : List Core) (σ σ' : St Core)
+    (vs : List Val), evalProgram fuel es σ = .ok (vs, σ') → (∀ e, e ∈ es → noAssign ps e = true) → OkSt ps σ →
+    (∀ g, g ∈ ps → lookupG g σ'.globals = lookupG g σ.globals) ∧ OkSt ps σ' := by
+  intro es
+  induction es with
+  | nil =>
+    intro σ σ' vs h _ hst
+    simp [evalProgram] at h; obtain ⟨_, rfl⟩ := h
+    exact ⟨fun _ _ => rfl, hst⟩
+  | cons e rest ih =>
+    intro σ σ' vs h hn hst
+    simp only [evalProgram] at h
+    cases h1 : evalTop fuel e σ with
+    | err k => simp [h1] at h
+    | timeout => simp [h1] at h
+    | ok p =>
+      obtain ⟨v, σ1⟩ := p
+      simp only [h1] at h
+      cases h2 : evalProgram fuel rest σ1 with
+      | err k => simp [h2, Res.map] at h
+      | timeout => simp [h2, Res.map] at h
+      | ok q =>
+        obtain ⟨vs', σ2⟩ := q
+        simp only [h2, Res.map, Res.ok.injEq, Prod.mk.injEq] at h
+        obtain ⟨_, rfl⟩ := h
+        obtain ⟨a1, a2, _⟩ := protected_slots_stable ps fuel e σ σ1 v h1 (hn e (by simp)) hst
+        obtain ⟨b1, b2⟩ := ih σ1 σ2 vs' h2 (fun e' he' => hn e' (List.mem_cons_of_mem _ he')) a2
+        exact ⟨fun g hg => (b1 g hg).trans (a1 g hg), b2⟩
+
+theorem okSt_prims (ps : List Nat) : OkSt ps (⟨[], primGlobals⟩ : St Core) := by
+  refine ⟨OkL.nil, ?_⟩
+  intro g v hm
+  simp [primGlobals] at hm
+  rcases hm with ⟨_, rfl⟩ | ⟨_, rfl⟩ | ⟨_, rfl⟩ | ⟨_, rfl⟩ | ⟨_, rfl⟩ | ⟨_, rfl⟩ <;> exact .prim _
+
+-- non-vacuity: unit 1 does not assign `f` (slot 20 is DEFINED there, so protect the primitives and check `+`):
+-- the primitives are untouched by `simplEx`; unit 2 of the K02a witness is outside the guard for slot 20
+example : simplEx.all (noAssign [0, 1, 2, 3, 4, 5]) = true := by decide
+example : unit2.all (noAssign [20]) = false := by decide
 
 end SteelVerif.C02C
